@@ -22,7 +22,9 @@ def _compute(tier, seed):
     bands, routing = rb.records, rr.records
     if tier == 'thorough':
         bands = [x for x in bands if len(x['v']) < 7 or int(digest(x), 16) % 4 == seed % 4]
-        routing = [x for x in routing if len(x['rows']) < 3 or int(digest(x), 16) % 20 == seed % 20]
+        routing = [x for x in routing if len(x['rows']) < 3 or int(digest(x), 16) % 40 == seed % 40]
+    else:
+        routing = [x for x in routing if len(x['rows']) < 2 or int(digest(x), 16) % 3 == seed % 3]
     from . import replay_plots
     res = pmap(replay_plots.replay_bands, [(rec, seed) for rec in bands]) + \
         pmap(replay_plots.replay_routing, [(rec, seed) for rec in routing])
